@@ -2171,7 +2171,16 @@ func opcodeCheckMultiSig(op *ParsedOpcode, t *thread) error {
 	// Get script starting from the most recent bscript.OpCODESEPARATOR.
 	script := t.subScript()
 
+	// As for OP_CHECKSIG, signatures and code separators are only removed
+	// from the script for signatures hashed with the original algorithm.
 	for _, sigInfo := range signatures {
+		if len(sigInfo.signature) == 0 {
+			continue
+		}
+		if t.hasFlag(scriptflag.EnableSighashForkID) &&
+			sighash.Flag(sigInfo.signature[len(sigInfo.signature)-1]).Has(sighash.ForkID) {
+			continue
+		}
 		script = script.removeOpcodeByData(sigInfo.signature)
 		script = script.removeOpcode(bscript.OpCODESEPARATOR)
 	}
